@@ -6,7 +6,7 @@ from .. import common, gen, b1
 class P(b1.Plugin):
     ops = ("deref", "derefmut", "write")
     driver_traits = (("deref", "Deref"), ("derefmut", "DerefMut"))
-    rule = ("struct/enum definitions with 1-5 same-typed fields per variant (value fields `L`, and `&'static L` and `&'static &'static L` reference fields when "
+    rule = ("struct/enum definitions with 1-5 same-typed fields per variant (value fields `L`, and `&'static L` and `&'static &'static L` reference fields, and `Box<L>` designated fields in later variants, when "
             "only Deref is educed), named and tuple shapes, Deref alone or Deref+DerefMut with independently placed markers (possibly "
             "on different fields), sole-field variants with and without marker; observed: which field's storage (or referent) has "
             "the address of `&*x` / `&mut *x`, and which fields change after a write through `&mut *x`. "
@@ -24,10 +24,13 @@ class P(b1.Plugin):
         metas = ["Deref"] + (["DerefMut"] if with_mut else [])
         td.traits = [", ".join(metas)] if rng.random() < 0.5 else metas
         td.with_mut = with_mut
-        for v in td.variants:
+        for vi, v in enumerate(td.variants):
             n = len(v.fields)
             di = rng.randrange(n)
             mi = rng.randrange(n) if rng.random() < 0.5 else di
+            # in a later variant the designated field may be spelled differently and still coerce to the first
+            # variant's target: `Box<L>` (the impl's Target is taken from the first variant)
+            boxed_j = di if (kind == "enum" and vi > 0 and rng.random() < 0.25) else None
             for j, f in enumerate(v.fields):
                 is_ref = (not with_mut) and rng.random() < 0.3
                 f.is_ref = is_ref
@@ -36,6 +39,9 @@ class P(b1.Plugin):
                     f.ty_src = "&'static &'static L" if f.ref2 else "&'static L"
                 dflag = (j == di) and (n > 1 or rng.random() < 0.5)
                 mflag = with_mut and (j == mi) and (n > 1 or rng.random() < 0.5)
+                f.boxed = (j == boxed_j) and not is_ref and (not with_mut or mi == di)
+                if f.boxed:
+                    f.ty_src = "Box<L>"
                 f.req["Deref"] = {"flag": dflag, "isRef": is_ref}
                 f.req["DerefMut"] = {"flag": mflag, "isRef": is_ref}
                 ms = (["Deref"] if dflag else []) + (["DerefMut"] if mflag else [])
@@ -48,8 +54,8 @@ class P(b1.Plugin):
         for k, v in enumerate(td.variants):
             head = td.name if td.kind == "struct" else "%s::%s" % (td.name, v.name)
             names = ["f%d" % j for j in range(len(v.fields))]
-            addrs = ", ".join(("(**%s) as *const L as usize" if getattr(f, "ref2", False) else "(*%s) as *const L as usize" if f.is_ref else "%s as *const L as usize") % n for f, n in zip(v.fields, names))
-            ids = ", ".join("Leaf::id(%s%s)" % ("**" if getattr(f, "ref2", False) else "*" if f.is_ref else "", n) for f, n in zip(v.fields, names))
+            addrs = ", ".join(("(**%s) as *const L as usize" if getattr(f, "ref2", False) else "(&**%s) as *const L as usize" if getattr(f, "boxed", False) else "(*%s) as *const L as usize" if f.is_ref else "%s as *const L as usize") % n for f, n in zip(v.fields, names))
+            ids = ", ".join("Leaf::id(%s%s)" % ("**" if getattr(f, "ref2", False) else "&**" if getattr(f, "boxed", False) else "*" if f.is_ref else "", n) for f, n in zip(v.fields, names))
             if v.shape == "tuple":
                 arms.append("%s(%s) => (%d, vec![%s], vec![%s])," % (head, ", ".join(names), k, addrs, ids))
             else:
@@ -66,7 +72,7 @@ class P(b1.Plugin):
             v = td.variants[k]
             args = []
             for j, (f, i) in enumerate(zip(v.fields, ids)):
-                args.append("&RS[%d][%d]" % (j, i) if getattr(f, "ref2", False) else "&LS[%d][%d]" % (j, i) if f.is_ref else "<L as Leaf>::d(%d)" % i)
+                args.append("&RS[%d][%d]" % (j, i) if getattr(f, "ref2", False) else "Box::new(<L as Leaf>::d(%d))" % i if getattr(f, "boxed", False) else "&LS[%d][%d]" % (j, i) if f.is_ref else "<L as Leaf>::d(%d)" % i)
             head = td.name if td.kind == "struct" else "%s::%s" % (td.name, v.name)
             e = "%s(%s)" % (head, ", ".join(args)) if v.shape == "tuple" else "%s { %s }" % (head, ", ".join("%s: %s" % (f.name, a) for f, a in zip(v.fields, args)))
             out.append(f'''
